@@ -436,10 +436,14 @@ def sendDpr (s : St) (cid : Nat) : St :=
 inductive Exn | attributeError | typeError | notRoutable | valueError | other
   deriving DecidableEq, Repr, Inhabited
 
+/-- handler result: the state reached, and the exception raised (if any) — state
+    changes made before a `raise` persist -/
+abbrev HR := St × Option Exn
+
 /-- `receive_cer`. `none` = raised (e.g. CER without Origin-Host: `None.decode()`). -/
-def receiveCer (s : St) (cid : Nat) (m : AMsg) (info : MsgInfo) : Except Exn St :=
+def receiveCer (s : St) (cid : Nat) (m : AMsg) (info : MsgInfo) : HR :=
   match m.oh with
-  | none => .error .attributeError
+  | none => (s, some .attributeError)
   | some ohRaw =>
     let cerHost := ohRaw.toLower
     let ans0 := { generateAnswer s m info none with cea := ceaSummary s }
@@ -447,7 +451,7 @@ def receiveCer (s : St) (cid : Nat) (m : AMsg) (info : MsgInfo) : Except Exn St 
     | none =>
       let s := s.modConn cid fun c => { c with state := .closing }
       let (s, ok) := sendMessage s cid { ans0 with rc := some 3010 } true
-      if ok then .ok s else .error .typeError
+      (s, if ok then none else some .typeError)
     | some _ =>
       let s := match s.conn? cid with
         | some c => if c.nodeName == "" then s.modConn cid fun c => { c with nodeName := cerHost } else s
@@ -461,36 +465,36 @@ def receiveCer (s : St) (cid : Nat) (m : AMsg) (info : MsgInfo) : Except Exn St 
       if lost then
         let s := s.modConn cid fun c => { c with state := .closing }
         let (s, ok) := sendMessage s cid { ans0 with rc := some 4003 } true
-        if ok then .ok s else .error .typeError
+        (s, if ok then none else some .typeError)
       else
         let isRelay := m.auth.contains 0xffffffff || m.acct.contains 0xffffffff
         let sa := (authIds s).filter m.auth.contains
         let sc := (acctIds s).filter m.acct.contains
         if sa.isEmpty && sc.isEmpty && !isRelay then
           let (s, ok) := sendMessage s cid { ans0 with rc := some 5010 } true
-          if ok then .ok s else .error .typeError
+          (s, if ok then none else some .typeError)
         else
           let s := s.modConn cid fun c =>
             { c with authApps := sa, acctApps := sc, originHost := s.cfg.host, hostIdentity := cerHost }
           let s := assignPeerConnection s cid
           let s := flagConnectionAsReady s cid
           let (s, ok) := sendMessage s cid { ans0 with rc := some 2001 } true
-          if ok then .ok s else .error .typeError
+          (s, if ok then none else some .typeError)
 
 /-- `receive_cea`. -/
-def receiveCea (s : St) (cid : Nat) (m : AMsg) : Except Exn St :=
-  if m.rc != some 2001 then .ok (closeConnectionSocket s cid .rejected)
+def receiveCea (s : St) (cid : Nat) (m : AMsg) : HR :=
+  if m.rc != some 2001 then (closeConnectionSocket s cid .rejected, none)
   else match m.oh with
-    | none => .error .attributeError
+    | none => (s, some .attributeError)
     | some oh =>
       let s := s.modConn cid fun c =>
         { c with authApps := (authIds s).filter m.auth.contains, acctApps := (acctIds s).filter m.acct.contains,
                  hostIdentity := oh }
       let s := assignPeerConnection s cid
-      .ok (flagConnectionAsReady s cid)
+      (flagConnectionAsReady s cid, none)
 
 /-- `receive_dpr`. -/
-def receiveDpr (s : St) (cid : Nat) (m : AMsg) (info : MsgInfo) : Except Exn St :=
+def receiveDpr (s : St) (cid : Nat) (m : AMsg) (info : MsgInfo) : HR :=
   let ans := generateAnswer s m info (some 2001)
   let s := s.modConn cid fun c => { c with state := .disconnecting }
   let s := match s.conn? cid with
@@ -499,17 +503,17 @@ def receiveDpr (s : St) (cid : Nat) (m : AMsg) (info : MsgInfo) : Except Exn St 
       | none => s
     | none => s
   let (s, ok) := sendMessage s cid ans true
-  if ok then .ok s else .error .typeError
+  (s, if ok then none else some .typeError)
 
 /-- `receive_dpa`. -/
 def receiveDpa (s : St) (cid : Nat) : St :=
   demandAttention (s.modConn cid fun c => { c with state := .closing }) cid
 
 /-- `receive_dwr`. -/
-def receiveDwr (s : St) (cid : Nat) (m : AMsg) (info : MsgInfo) : Except Exn St :=
+def receiveDwr (s : St) (cid : Nat) (m : AMsg) (info : MsgInfo) : HR :=
   let ans := generateAnswer s m info (some 2001)
   let (s, ok) := sendMessage s cid ans true
-  if ok then .ok s else .error .typeError
+  (s, if ok then none else some .typeError)
 
 /-- `receive_dwa` → `reset_last_dwa`. -/
 def receiveDwa (s : St) (cid : Nat) : St :=
@@ -517,29 +521,29 @@ def receiveDwa (s : St) (cid : Nat) : St :=
 
 /-- `Application.receive_request` for a basic application: `handle_request`
     runs in the caller; it may raise. -/
-def appReceiveRequest (s : St) (ai : Nat) (m : AMsg) : Except Exn St :=
+def appReceiveRequest (s : St) (ai : Nat) (m : AMsg) : HR :=
   let s := { s with appRequests := s.appRequests ++ [(ai, m)] }
   let s := s.emit (.appReq ai m)
   match s.apps[ai]? with
-  | some a => if a.raiseOnRequest then .error .other else .ok s
-  | none => .ok s
+  | some a => (s, if a.raiseOnRequest then some .other else none)
+  | none => (s, none)
 
 /-- `_receive_app_request`. -/
-def receiveAppRequest (s : St) (cid : Nat) (m : AMsg) (info : MsgInfo) : Except Exn St :=
+def receiveAppRequest (s : St) (cid : Nat) (m : AMsg) (info : MsgInfo) : HR :=
   match s.conn? cid with
-  | none => .ok s
+  | none => (s, none)
   | some c =>
     let peer := findConnectionPeer s c
     if !info.hasDR then
       let (s, ok) := sendMessage s cid (generateAnswer s m info (some 3007)) info.ansTyped
-      if ok then .ok s else .error .typeError
+      (s, if ok then none else some .typeError)
     else match m.dr with
-      | none => .error .attributeError        -- `None.decode()`
+      | none => (s, some .attributeError)        -- `None.decode()`
       | some realm =>
         match s.routes.find? (·.1 == realm) with
         | none =>
           let (s, ok) := sendMessage s cid (generateAnswer s m info (some 3003)) info.ansTyped
-          if ok then .ok s else .error .typeError
+          (s, if ok then none else some .typeError)
         | some (_, tbl) =>
           let pick := tbl.findSome? fun (k, ps) =>
             match k with
@@ -562,7 +566,7 @@ def receiveAppRequest (s : St) (cid : Nat) (m : AMsg) (info : MsgInfo) : Except 
             appReceiveRequest s ai m
           | none =>
             let (s, ok) := sendMessage s cid (generateAnswer s m info (some 3007)) info.ansTyped
-            if ok then .ok s else .error .typeError
+            (s, if ok then none else some .typeError)
 
 /-- `Application.receive_answer`. -/
 def appReceiveAnswer (s : St) (ai : Nat) (m : AMsg) : St :=
@@ -588,7 +592,7 @@ def recordOrigin (s : St) (m : AMsg) (info : MsgInfo) : St :=
   else s
 
 /-- The `match (is_request, command_code)` of `_receive_message` (inside `try`). -/
-def handleByCommand (s : St) (cid : Nat) (m : AMsg) (info : MsgInfo) : Except Exn St :=
+def handleByCommand (s : St) (cid : Nat) (m : AMsg) (info : MsgInfo) : HR :=
   -- `_update_peer_counters`: requests received from a known peer
   let s := if m.isRequest then
       match (s.conn? cid).bind (findConnectionPeer s) with
@@ -596,10 +600,10 @@ def handleByCommand (s : St) (cid : Nat) (m : AMsg) (info : MsgInfo) : Except Ex
       | none => s
     else s
   if m.cmd == 257 then (if m.isRequest then receiveCer s cid m info else receiveCea s cid m)
-  else if m.cmd == 280 then (if m.isRequest then receiveDwr s cid m info else .ok (receiveDwa s cid))
-  else if m.cmd == 282 then (if m.isRequest then receiveDpr s cid m info else .ok (receiveDpa s cid))
+  else if m.cmd == 280 then (if m.isRequest then receiveDwr s cid m info else (receiveDwa s cid, none))
+  else if m.cmd == 282 then (if m.isRequest then receiveDpr s cid m info else (receiveDpa s cid, none))
   else if m.isRequest then receiveAppRequest s cid m info
-  else .ok (receiveAppAnswer s m)
+  else (receiveAppAnswer s m, none)
 
 def crashReader (s : St) (cid : Nat) (exc : String) : St :=
   (s.modConn cid fun c => { c with readerCrashed := true }).emit (.crash s!"reader c{cid}" exc)
@@ -623,8 +627,8 @@ def receiveMessage (s : St) (cid : Nat) (m : AMsg) (info : MsgInfo) : St :=
       if ok then s else crashReader s cid "TypeError"
     else
       match handleByCommand s cid m info with
-      | .ok s' => s'
-      | .error _ =>
+      | (s', none) => s'
+      | (s, some _) =>
         -- `except Exception`: build a 5012 "answer" (only for requests in the repaired code)
         if Config.answerOnlyRequests && !m.isRequest then s
         else
